@@ -208,6 +208,12 @@ def run(c, chk):
     c04.run(c, sub)
     sub.done('value conversion')
 
+    # ---- R5.9: a section header carries a title exactly when the reader demands one ----------------------
+    section_headers(c, chk, ex2)
+
+    # ---- R5.8: the text of a printed number is one word for the reader --------------------------------
+    number_formats(c, chk, ex2)
+
     # ---- R5.3 ---------------------------------------------------------------------------------
     cw = None
     for p in ex2.explore(opf):
@@ -228,3 +234,135 @@ def run(c, chk):
         chk.fail('R5.3', 'annotation-terminator', c.where(cw),
                  'annotations are written as "/* %s */" without neutralising "*/" in the text: an annotation read from "# a */ b" (or set through the API) '
                  'closes the comment early when the printed file is read back')
+
+
+CONV = re.compile(r'^%([-+ #0]*)(\d+|\*)?(?:\.(\d+|\*))?(hh|h|ll|l|L|z|j|t|q)?([diouxXeEfFgGaAcsp])$')
+
+
+def conversion_alphabet(spec):
+    """(first characters, all characters) a printf conversion of a number can produce; None when it is not a numeric conversion"""
+    m = CONV.match(spec)
+    if not m:
+        return None
+    flags, conv = m.group(1), m.group(5)
+    digits = '0123456789'
+    if conv in 'di':
+        first, rest = '-' + digits, digits
+    elif conv == 'u':
+        first, rest = digits, digits
+    elif conv in 'fF':
+        first, rest = '-' + digits + ('in' if conv == 'f' else 'IN'), digits + '.' + ('infa' if conv == 'f' else 'INFA')
+    elif conv in 'eEgG':
+        e = 'e' if conv in 'eg' else 'E'
+        first, rest = '-' + digits + ('in' if conv in 'eg' else 'IN'), digits + '.+-' + e + ('infa' if conv in 'eg' else 'INFA')
+    elif conv in 'xX':
+        first = rest = digits + ('abcdef' if conv == 'x' else 'ABCDEF') + ('xX' if '#' in flags else '')
+    elif conv == 'o':
+        first = rest = '01234567'
+    elif conv in 'aA':
+        first, rest = '-0', digits + 'abcdefABCDEF.xXpP+-'
+    else:
+        return None
+    if '+' in flags:
+        first += '+'
+    if ' ' in flags:
+        first += ' '
+    if m.group(2) and '0' not in flags and '-' not in flags:
+        first += ' '          # padded with blanks on the left
+    if m.group(2) and '-' in flags:
+        rest += ' '
+    return first, rest, conv, flags
+
+
+def number_formats(c, chk, ex):
+    """R5.8: a number is written bare (no quotes).  Whatever characters its printf conversion can produce must therefore stay
+    inside ONE unquoted word of the scanner, and an integer must be written in a radix the reader selects by prefix"""
+    chk.rule('R5.8', 'every character a number\'s print conversion can produce continues one unquoted word of the scanner; integers are written in a radix the reader recognises')
+    lex = c.lex
+    dfa = lex.dfa
+    word, ln = dfa.match('INITIAL', b'a1 ')
+    if word is None or ln != 2:
+        raise report.Broken('the unquoted-word rule of the scanner was not found')
+    n = 0
+    seen = set()
+    for f in c.confuse.funcs.values():
+        if f.name in c.unknown_funcs or not any(outmodel.writes_anything(g) for g in c.deep_funcs(f)):
+            continue
+        for p in ex.explore(f):
+            if p.end != 'ret':
+                continue
+            for t in outmodel.tokens(p.events, calls=PRINT_CALLS):
+                if t[0] != 'arg' or not sym.mentions(t[2], lambda v: (v[0] == 'fld' and v[3] in ('number', 'fpnumber')) or
+                                                     (v[0] == 'call' and re.match(r'^cfg_(opt_)?getn?(int|float)$', v[1]))):
+                    continue
+                if (f.name, t[1]) in seen:
+                    continue
+                seen.add((f.name, t[1]))
+                al = conversion_alphabet(t[1])
+                if al is None:
+                    continue
+                n += 1
+                first, rest, conv, flags = al
+                badc = [ch for ch in sorted(set(rest)) if dfa.match('INITIAL', b'1' + ch.encode() + b'1 ') != (word, 3)]
+                badf = [ch for ch in sorted(set(first)) if dfa.match('INITIAL', ch.encode() + b'1 ') != (word, 2)]
+                where = c.where(t[-1].ins)
+                if badc or badf:
+                    chk.fail('R5.8', 'number-not-one-word:%s:%s' % (f.name, t[1]), where,
+                             '%s() writes a number with "%s", which can produce %s: the scanner does not keep %s inside an unquoted word '
+                             '(e.g. an exponent is written "1e+15", and "+" ends the word), so the printed value does not read back'
+                             % (f.name, t[1], ', '.join(repr(x) for x in (badc + badf)), 'that character' if len(badc + badf) == 1 else 'those characters'))
+                elif conv in 'xXo' and '#' not in flags or conv in 'u':
+                    chk.fail('R5.8', 'number-radix:%s:%s' % (f.name, t[1]), where, '%s() writes an integer with "%s": the reader picks the radix from the prefix (0x, 0, none) '
+                             'and a signed decimal otherwise, so the text reads back as a different number' % (f.name, t[1]))
+                else:
+                    chk.ok('R5.8', '%s: "%s"' % (f.name, t[1]), 'all of %r continue an unquoted word' % ''.join(sorted(set(first + rest))), sample=True)
+    chk.floor('R5.8 numeric print conversions', n, 2)
+
+
+def section_headers(c, chk, ex):
+    """R5.9: after the name of a section option the reader demands a title iff the option carries CFGF_TITLE (whether or not
+    an instance happens to have one).  The writer must take the same decision from the same flag: a header with a title
+    for an option without the flag, or without one for an option with it, is a syntax error when read back"""
+    chk.rule('R5.9', 'the section header is written with a title exactly on the paths where the option carries CFGF_TITLE (the reader\'s criterion)')
+    # reader side: the parser decides by the flag
+    model = pm.ParserModel(c)
+    reader = False
+    for tr in model.transitions(0, pm.TOKENS['STR']):
+        if any(pm.describe_cond(cn).endswith('->flags has TITLE') for cn, t, _ in tr.assume):
+            reader = True
+    if not reader:
+        raise report.Broken('the parser no longer decides by CFGF_TITLE whether a title follows a section name')
+    n = 0
+    bad = None
+    for f in c.confuse.funcs.values():
+        if f.name in c.unknown_funcs or not any(outmodel.writes_anything(g) for g in c.deep_funcs(f)):
+            continue
+        for p in ex.explore(f):
+            if p.end != 'ret':
+                continue
+            toks = outmodel.tokens(p.events, calls=PRINT_CALLS)
+            text, index = outmodel.render(toks)
+            hs = list(re.finditer(r'%s (\x00cfg_print_quoted\x00 ?|"?%s"? )?\{\n', text))
+            if not hs:
+                continue
+            flag = None
+            for cn, t, _ in p.assume:
+                d = pm.describe_cond(cn)
+                if d == 'opt->flags has TITLE':
+                    flag = t
+                elif d == 'not(opt->flags has TITLE)':
+                    flag = not t
+            for m in hs:
+                n += 1
+                titled = m.group(1) is not None
+                if flag is None or titled != flag:
+                    bad = bad or (f, toks[index[m.start()]], titled, flag)
+    if bad is not None:
+        f, t, titled, flag = bad
+        chk.fail('R5.9', 'header-title-criterion:%s' % f.name, c.where(t[-1].ins),
+                 '%s() writes a section header %s a title on a path where %s: the reader demands a title exactly when the option carries CFGF_TITLE, '
+                 'so e.g. a titled single section (whose instance has no title of its own) is printed as "name {" and rejected when read back'
+                 % (f.name, 'with' if titled else 'without', 'CFGF_TITLE was not consulted' if flag is None else 'the option %s CFGF_TITLE' % ('has' if flag else 'lacks')))
+    elif n:
+        chk.ok('R5.9', 'section headers on %d print paths' % n, 'title written iff opt->flags has CFGF_TITLE', sample=True)
+    chk.floor('R5.9 section headers on print paths', n, 2)
